@@ -483,6 +483,10 @@ func call(p *Path, caller *frame, callpos token.Pos, fn value, args []value) val
 
 func callSSA(p *Path, caller *frame, callpos token.Pos, fn *ssa.Function, args []value, env []value) value {
 	info := p.eng.classify(fn)
+	if info.stubTag != "" && p.tags[info.stubTag] {
+		p.eng.noteFunc(info.stub)
+		return callSSA(p, caller, callpos, info.stub, args, nil)
+	}
 	switch info.kind {
 	case fkIntrinsic:
 		fr := &frame{p: p, caller: caller, fn: fn}
